@@ -71,7 +71,15 @@ def run(tier, seed, replay):
                 args.append(ast.unparse(x.args[0]) if x.args else "")
             if isinstance(x, ast.Call) and isinstance(x.func, ast.Attribute) and x.func.attr == "pop":
                 pops.append(ast.unparse(x))
-        ok = bool(args) and all(a == WHOLE or a in aliases for a in args) and pops == ["self.pop(times=match.end())"]
+        # the variable(s) the match result is bound to, whatever they are called
+        mvars = set()
+        for x in ast.walk(f.node):
+            v = x.value if isinstance(x, (ast.Assign, ast.NamedExpr)) else None
+            if isinstance(v, ast.Call) and isinstance(v.func, ast.Attribute) and v.func.attr == "match" \
+                    and ast.unparse(v.func.value).endswith("_PATTERN"):
+                mvars |= {t.id for t in ([x.target] if isinstance(x, ast.NamedExpr) else x.targets) if isinstance(t, ast.Name)}
+        ok = bool(args) and all(a == WHOLE or a in aliases for a in args) and len(pops) == 1 \
+            and any(pops[0] == f"self.pop(times={m}.end())" for m in mvars)
         chk.frame(f"frame.{fn}.pattern_sees_the_whole_rest_and_match_end_is_consumed", ok,
                   {"match_arguments": args, "aliases_of_the_rest": sorted(aliases), "pops": pops},
                   what=f"{fn}: the numeric pattern is not applied to the whole rest of the source ({args}) or the token "
